@@ -610,6 +610,7 @@ func init() {
 					}
 				}
 			}, func() struct{} { return struct{}{} }, c11ProgCheck)
+		c11SoundPart(c)
 		explore.Product(c.R, "io-writes-at-every-phase", explore.PartOpt{Bound: "one write (and a second one 0, 1 or 7 cycles later) after every delay 0-131 from a busy machine, then 160 cycles", Domain: "every register FF00-FF7F and IE x 10 values x sound frequencies {7FF, 7FE, 7FD, 7F8, 700} (wave period 16 to 4,096 cycles)"},
 			func(yield func(c11IO) bool) {
 				freqs := []int{0x7ff, 0x7fe, 0x7fd, 0x7f8, 0x700}
